@@ -37,7 +37,9 @@ TraceTypedGrid == IsEvent("TypedGrid") /\ TypedGridOK(Ev.kinds, Ev.grid, Traces[
 TraceTypedText == IsEvent("TypedText") /\ TypedTextOK(Ev.kinds, Ev.words)
 
 TraceInit == tid \in 1..Len(Traces) /\ l = 1
-TraceNext == TraceText \/ TraceUnits \/ TraceTables \/ TraceTyped \/ TraceTypedGrid \/ TraceTypedText
+TraceTypedHeader == IsEvent("TypedHeader") /\ TypedHeaderOK(Ev.kinds, Ev.row)
+
+TraceNext == TraceText \/ TraceUnits \/ TraceTables \/ TraceTyped \/ TraceTypedGrid \/ TraceTypedText \/ TraceTypedHeader
 TraceSpec == TraceInit /\ [][TraceNext]_vars
 TraceAccept ==
     /\ (l = Len(Traces[tid].ev) + 1) => PrintT(<<"ACCEPT", tid>>)
